@@ -17,13 +17,14 @@ def run(m, chk):
         "(Bezier/spline x rational/non-rational exhaustively); the degree-0 branch returns a curve on the curve's limits built from 0 * ctrlpoints[0]; the result depends on knot vector, "
         "control points and — on rational branches — weights. The derivative values and the quotient-rule algebra are not decided."
     )
-    chk.decides = ["MULT-AWARE (the copies inserted / removed around a degree elevation are counted from each knot's multiplicity)", "SCALE-REACHES (every matrix the Bezier derivative helper returns went through the division by the interval length)", "TRUNC-FLOAT (no integer obtained by truncating a float quotient is used under Derivate)", "POINT-OPS (Derivate applies nothing to a control point but scalar * point and point + point, the protocol the library promises to be enough)", "TOL-ABSOLUTE (knot identity is decided on differences, never with a tolerance relative to the knots)", "DTYPE-INHERIT (the derivative factors are not stored into an array whose dtype comes from the data)", "RESULT-HOMOG (the derivative of a rational curve is of degree 0 in the weights: numerator and denominator parts are divided out)", "PURE", "FRESH", "EXHAUSTIVE dispatch", "DEP-MAY", "degree-0 branch shape", 'INTERVAL (the derivative lives on the operand knot values)', 'ZIP-ALIGN (the product knot vector of the quotient rule pairs parallel lists with the same slice)', 'NO-LOSSY (the derivative is not passed through a tolerance-accepting simplifier)']
+    chk.decides = ["COUNT-PAIR (the knot vector of the spline derivative loses a data-dependent number of knots — one per knot of full multiplicity — so its control points are selected by the knots as well, and never by their values)", "MULT-AWARE (the copies inserted / removed around a degree elevation are counted from each knot's multiplicity)", "SCALE-REACHES (every matrix the Bezier derivative helper returns went through the division by the interval length)", "TRUNC-FLOAT (no integer obtained by truncating a float quotient is used under Derivate)", "POINT-OPS (Derivate applies nothing to a control point but scalar * point and point + point, the protocol the library promises to be enough)", "TOL-ABSOLUTE (knot identity is decided on differences, never with a tolerance relative to the knots)", "DTYPE-INHERIT (the derivative factors are not stored into an array whose dtype comes from the data)", "RESULT-HOMOG (the derivative of a rational curve is of degree 0 in the weights: numerator and denominator parts are divided out)", "PURE", "FRESH", "EXHAUSTIVE dispatch", "DEP-MAY", "degree-0 branch shape", 'INTERVAL (the derivative lives on the operand knot values)', 'ZIP-ALIGN (the product knot vector of the quotient rule pairs parallel lists with the same slice)', 'NO-LOSSY (the derivative is not passed through a tolerance-accepting simplifier)']
     chk.not_decided = ["D(u) = dC/du as values", "quotient rule algebra", "knot vector of the derivative"]
     for f in FUNCS:
         r.pure("PURE", D + f, ["curve"])
         r.fresh_result("FRESH", D + f)
-    from .extra import trunc_float
+    from .extra import trunc_float, count_pair
 
+    count_pair(r, chk, D + "nonrational_spline")
     trunc_float(r, chk, [D + "__new__"])
     from .extra import scale_reaches
 
